@@ -282,6 +282,9 @@ func c12LossFree(a *c12Agg, item *int64) {
 				if wi > 0 && c12Paths[pi].AckEvery > 2 && !c12WarmIsInstall(w) {
 					continue // see the assumption on acknowledgement frequency
 				}
+				if wi > 0 && c12Paths[pi].ColdOnly && !c12WarmIsInstall(w) {
+					continue // fractional-millisecond RTT paths: see c12Paths
+				}
 				*item++
 				if !env.Mine(*item) {
 					continue
